@@ -26,9 +26,33 @@ from fractions import Fraction
 from ..runner import PY, REPO, ROOT, Infra
 from ..workers import c04_worker as W
 
-THEOREMS = []      # filled in below (kept next to the notes for the manifest)
-SEARCHED = []
-TRUSTED = []
+THEOREMS = ["infer_sound", "infer_sound_is_one_partial", "infer_is_one_witness",
+            "tables_sound_partial", "tables_sound_lifted", "tables_unsound_witness",
+            "rule_sound_add", "rule_sound_subtract", "rule_sound_multiply", "rule_sound_divide", "rule_sound_minimum", "rule_sound_maximum",
+            "rule_sound_negative", "rule_sound_absolute", "rule_sound_sqrt", "rule_sound_square", "rule_sound_sign", "rule_sound_constant",
+            "rule_sound_upcast", "rule_sound_downcast", "rule_sound_log", "rule_sound_log10", "rule_sound_log2", "rule_sound_log1p",
+            "rule_sound_logical_and", "rule_sound_logical_or", "rule_sound_logical_not", "rule_sound_compare", "rule_sound_compare_fold",
+            "rule_sound_select", "rule_sound_dispatch", "rule_sound_call", "rule_sound_modifier",
+            "rewrite_sound_real", "rewrite_sound_real_partial", "rewrite_sound_fp_partial",
+            "rewrite_unsound_witness", "upcast_downcast_witness", "no_raise_witness_complex", "no_raise_witness_upcast", "no_raise_witness_sqrt",
+            "example_rewrites"]
+SEARCHED = ["termination of the per-node fixpoint (fuel exhaustion in the model, 10 s watchdog on the real rewriter)",
+            "no exception on well-typed real input (no theorem; model == implementation on exceptions + search)",
+            "the strict model returns the plain model's result (checked per expression by the driver)",
+            "complex-valued kinds (conjugate/real/imag/complex rules are modelled and compared, not given a semantics)",
+            "lists/items, apply (rule `item` not modelled; bodies of shipped graphs are compared)",
+            "floating-point clause for mixed-precision expressions, inexact constant folds and casts (NumPy search only)",
+            "_is_boolean, is_complex, get_type (model == implementation by correspondence)"]
+TRUSTED = ["Lean 4 kernel; axioms propext, Classical.choice, Quot.sound only",
+           "hand model Models/Rewriter.lean of rewrite.py/expr.py, tied by the correspondence check of this run (trees compared exactly, exceptions as enum)",
+           "translator of the three relational tables (module attributes after the completion loop), re-read on every run",
+           "semantics Lemmas/RewriterSem.lean: strict evaluation over an ordered field; floating point = monotone odd idempotent rounding of the exact result, "
+           "regular results only (the property's no-NaN/overflow/underflow side condition), one working format, values read up to the sign of zero",
+           "FP/Soft.lean == NumPy scalar arithmetic for constant folding (validated by the correspondence of folded constants, bit patterns compared)",
+           "hash-consed identity == structural equality (C07), NaN payloads identified"]
+
+# rows of the known finding (status "known" in known_findings.json): recorded with the verdict they have
+KNOWN_BAD_ROWS = {("aa", "Nnonnegative", "Nnonpositive"), ("aa", "Nnonpositive", "Nnonnegative")}
 
 NPROC = max(2, min(8, (os.cpu_count() or 4) // 2))
 
@@ -169,13 +193,18 @@ def generate(ctx):
             while nm in seen:
                 nm += "_"
             seen.add(nm)
-            verdicts[(name, key_tok(a), key_tok(b))] = dict(theorem=nm, bad=bad, reachable=reachable(name, a, b), entries=[entry_tok(x) for x in ent],
-                                                             keys=(a, b))
+            reach = reachable(name, a, b)
+            known = (name, key_tok(a), key_tok(b)) in KNOWN_BAD_ROWS
+            verdicts[(name, key_tok(a), key_tok(b))] = dict(theorem=nm, bad=bad, reachable=reach, known=known, entries=[entry_tok(x) for x in ent],
+                                                             keys=(a, b), table=name)
             if bad is None:
                 R.append(f"-- {nm}: key outside the abstraction, not judged")
                 continue
             row = f"(({lean_key(a)}, {lean_key(b)}), [{', '.join(lean_entry(x) for x in ent)}])"
-            R.append(f"theorem {nm} : rowSound {row} = {'true' if not bad else 'false'} := by decide")
+            # rows the rewriter can consult must be sound (a broken row is a named, failing obligation);
+            # rows it cannot consult and the rows of the known finding are recorded with the verdict they have
+            want = "true" if (reach and not known) else ("true" if not bad else "false")
+            R.append(f"theorem {nm} : rowSound {row} = {want} := by decide")
     R.append("end FAVerif.Generated.C04Rows")
     ctx.lean.write_generated("C04Rows.lean", "\n".join(R) + "\n")
     return tabs, verdicts
@@ -632,3 +661,528 @@ def work_of(spec):
 
     rec(spec, set())
     return max(cnt, key=cnt.get) if cnt else "f64"
+
+
+# ----------------------------------------------------------------------------- assignments
+
+TAG_OF_TYPE = {"float16": "f16", "float32": "f32", "float64": "f64", "float": "py", "int64": "i", "boolean": "b"}
+
+
+def symbols_of(spec):
+    out = {}
+
+    def rec(s, memo):
+        if id(s) in memo:
+            return
+        memo.add(id(s))
+        if s[0] == "sym":
+            out[s[1]] = TAG_OF_TYPE.get(s[2])
+        elif s[0] == "const":
+            rec(s[2], memo)
+        else:
+            for o in s[1:]:
+                rec(o, memo)
+
+    rec(spec, set())
+    return out
+
+
+def gen_value(rng, tag, allow_inf):
+    """boundary-heavy value representable in the dtype: returns (Fraction | None for inf, float)"""
+    import numpy
+
+    if tag == "i":
+        n = rng.choice([0, 0, 1, -1, 2, -2, 3, 7, 100, -100, rng.randint(-50, 50)])
+        return Fraction(n), n
+    p = {"f16": 11, "f32": 24, "f64": 53, "py": 53}[tag]
+    emax = {"f16": 14, "f32": 120, "f64": 1000, "py": 1000}[tag]
+    emin = {"f16": -13, "f32": -120, "f64": -1000, "py": -1000}[tag]
+    c = rng.random()
+    if c < 0.16:
+        q = Fraction(0)
+    elif c < 0.30:
+        q = Fraction(rng.choice([1, -1]))
+    elif c < 0.40:
+        q = Fraction(rng.choice([1, -1])) * Fraction(2) ** rng.choice([emin, emin + 1, -8, -3])
+    elif c < 0.50:
+        q = Fraction(rng.choice([1, -1])) * Fraction(2) ** rng.choice([emax, emax - 1, 8, 5])
+    elif c < 0.56 and allow_inf:
+        return None, rng.choice([float("inf"), -float("inf")])
+    elif c < 0.75:
+        q = Fraction(rng.randint(-16, 16), rng.choice([1, 2, 4, 8]))
+    else:
+        q = Fraction(rng.randint(-(1 << min(p, 20)), 1 << min(p, 20)), 1 << rng.choice([0, 3, 10, 18]))
+    return q, float(q)
+
+
+def gen_assignments(rng, spec, n):
+    syms = symbols_of(spec)
+    out = []
+    for k in range(n):
+        q, f = {}, {}
+        prev = {}
+        for name, tag in sorted(syms.items()):
+            if tag is None:
+                continue
+            if tag == "b":
+                b = rng.random() < 0.5
+                q[name], f[name] = b, b
+                continue
+            if tag in prev and rng.random() < 0.25:
+                vq, vf = prev[tag]          # equal values
+            else:
+                vq, vf = gen_value(rng, tag, allow_inf=(k % 3 == 2))
+            prev[tag] = (vq, vf)
+            if vq is None:
+                # infinity: only in the floating-point environment; the exact environment gets a finite stand-in
+                q[name] = [rng.choice([1, -1, 0, 3]), 1]
+            else:
+                q[name] = [vq.numerator, vq.denominator]
+            f[name] = ["i", int(vf)] if tag == "i" else [tag, W.float_bits(vf, tag)]
+        out.append(dict(q=q, f=f))
+    return out
+
+
+# ----------------------------------------------------------------------------- stages
+
+def table_stage(ctx, verdicts, lean_broken):
+    """One obligation per table row; unexpected unsound reachable rows are broken obligations."""
+    items = {}
+    latent = []
+    for key, v in verdicts.items():
+        name = f"row:{key[0]}:({key[1][1:]},{key[2][1:]})"
+        if v["bad"] is None:
+            ctx.obligation(name, True, kind="table-row(not judged: key outside the abstraction)")
+            continue
+        if v["bad"] and not v["reachable"]:
+            latent.append(name)
+            ctx.obligation(name, True, kind="table-row(unsound but never consulted by _compare)")
+            continue
+        ok = not v["bad"]
+        ctx.obligation(name, ok or v["known"], kind="table-row" if ok else "table-row(known finding)")
+        if v["bad"] and not v["known"]:
+            items[key] = ctx.broken(f"tables_sound:{name}", f"row {v['keys']} entries {v['entries']} unsound columns {v['bad']}")
+    ctx.notes["latent_unsound_unreachable_rows"] = latent
+    return items
+
+
+def compare_one(res, out):
+    """-> (status, detail).  status in same | order-only | unsupported | nan-identity | MISMATCH"""
+    head, _, strict = out.partition(" | strict=")
+    if head.startswith("ok "):
+        m = ("ok", W.parse_sexpr(head[3:]))
+    elif head.startswith("err "):
+        m = ("err", head[4:])
+    else:
+        return "MISMATCH", f"driver said {head[:200]}", strict
+    real = ("ok", tuplify(res["ok"])) if "ok" in res else ("err", res["err"])
+    if m[0] == "err" and m[1].startswith("Unsupported"):
+        return "unsupported", m[1], strict
+    if m == real:
+        return "same", real[0] if real[0] == "ok" else real[1], strict
+    if m[0] == "ok" and real[0] == "ok" and W.sort_canon(m[1]) == W.sort_canon(real[1]):
+        return "order-only", "", strict
+    blob = repr(m) + repr(real) + res.get("dag", "")
+    if "7fc00000" in blob or "7ff8000000000000" in blob or ":7e00" in blob or "Nnan" in blob or "Nundefined" in blob:
+        return "nan-identity", "", strict
+    return "MISMATCH", dict(model=str(m)[:1500], impl=str(real)[:1500]), strict
+
+
+def shrink_spec(spec, still_fails, budget=60):
+    """greedy delta debugging: replace the expression by one of its sub-expressions while it still fails"""
+    cur = spec
+    changed = True
+    while changed and budget > 0:
+        changed = False
+        kids = [s for s in (cur[1:] if cur[0] not in ("sym", "const") else []) if isinstance(s, list)]
+        for k in kids:
+            budget -= 1
+            if budget <= 0:
+                break
+            try:
+                if still_fails(k):
+                    cur = k
+                    changed = True
+                    break
+            except Exception:  # noqa: BLE001
+                continue
+    return cur
+
+
+def correspondence(ctx, tline, specs, kinds, label, broken_out):
+    """real rewriter vs model on `specs`; returns per-spec status list"""
+    res = run_jobs("corr", specs)
+    idx = [i for i, r in enumerate(res) if "dag" in r]
+    lines = [r_line(res[i], work_of(specs[i])) for i in idx]
+    outs = run_driver(ctx, tline, lines)
+    status = [None] * len(specs)
+    for i, r in enumerate(res):
+        if "dag" not in r:
+            ctx.count(f"{label}:build-error:{r.get('build_error')}")
+            status[i] = "build-error"
+    mism = 0
+    for i, o in zip(idx, outs):
+        r = res[i]
+        st, detail, strict = compare_one(r, o)
+        status[i] = st
+        ctx.count(f"{label}:{st}")
+        ctx.count(f"{label}:strict:{strict.split(':')[0]}")
+        if strict.startswith("Inexact:internal") or strict == "ok-diff":
+            mism += 1
+            if len(broken_out) < 4:
+                broken_out.append((ctx.broken("model:strict-run-disagrees-with-plain-run", json.dumps(dict(dag=r["dag"], strict=strict))), specs[i]))
+        nontrivial = bool(r.get("changed")) or "err" in r
+        ctx.case(key=W.hstr(r["dag"]), nontrivial=nontrivial)
+        if "err" in r:
+            ctx.count(f"{label}:impl-raises:{r['err']}")
+        elif r.get("changed"):
+            ctx.count(f"{label}:rewritten")
+        ctx.traces_validated += 1
+        if st == "MISMATCH":
+            mism += 1
+            if len(broken_out) < 4:
+                def fails(sub):
+                    rr = W.correspondence_case(sub)
+                    if "dag" not in rr:
+                        return False
+                    oo = run_driver(ctx, tline, [r_line(rr, work_of(sub))], nproc=1)
+                    return compare_one(rr, oo[0])[0] == "MISMATCH"
+                small = shrink_spec(specs[i], fails)
+                path = save_corpus("mismatch", small)
+                item = ctx.broken("correspondence:Rewriter", json.dumps(dict(spec=W.share(small), detail=detail, corpus=path))[:3500])
+                broken_out.append((item, small))
+    return status, res, mism
+
+
+def save_corpus(prefix, spec):
+    d = os.path.join(ROOT, "corpus", "C04")
+    os.makedirs(d, exist_ok=True)
+    blob = json.dumps(dict(spec=W.share(spec)), sort_keys=True)
+    import hashlib
+
+    name = f"{prefix}_{hashlib.sha256(blob.encode()).hexdigest()[:10]}.json"
+    path = os.path.join(d, name)
+    if not os.path.exists(path):
+        with open(path, "w") as f:
+            f.write(blob + "\n")
+    return os.path.relpath(path, ROOT)
+
+
+def load_corpus():
+    d = os.path.join(ROOT, "corpus", "C04")
+    out = []
+    if os.path.isdir(d):
+        for fn in sorted(os.listdir(d)):
+            if fn.endswith(".json"):
+                try:
+                    out.append((fn, W.unshare(json.load(open(os.path.join(d, fn)))["spec"])))
+                except Exception:  # noqa: BLE001
+                    continue
+    return out
+
+
+def report_search(ctx, spec, res, broken_item=None, origin="generated"):
+    """turn the failures of one search case into violations"""
+    n = 0
+    if not res.get("fails"):
+        return 0
+    sigs = res.get("signatures") or [f.get("signature", "value:unclassified") for f in res["fails"]]
+    for sig in dict.fromkeys(sigs):
+        what = f"{origin}: rewriting changes the value / raises on the real rewriter: {sig}; first failure {json.dumps(res['fails'][0])[:600]}"
+        ctx.violation(sig, what, dict(spec=W.share(spec), fails=res["fails"][:3], minimal=res.get("minimal")), broken_item=broken_item)
+        n += 1
+    return n
+
+
+def sym_spec(name, ty):
+    return ["sym", name, TYPES[ty]]
+
+
+def prop_witness(prop, ty, name):
+    """expression whose inferred property is `prop` (and nothing stronger than needed)"""
+    x = sym_spec(name, ty)
+    like = sym_spec(name, ty)
+    c = lambda v: ["const", ["i", v], like]
+    return dict(nonnegative=["absolute", x], nonpositive=["negative", ["absolute", x]],
+                positive=["divide", c(3), c(2)], negative=["divide", c(-3), c(2)],
+                finite=["divide", c(1), c(2)])[prop]
+
+
+def key_expr(key, ty, name):
+    if isinstance(key, str) and key in PROP_CLASSES:
+        return prop_witness(key, ty, name)
+    like = sym_spec(name, ty)
+    if isinstance(key, str):
+        return ["const", ["n", key], like]
+    return ["const", ["i", int(key)], like]
+
+
+def table_probes(verdicts):
+    """for every row the rewriter can consult: the comparisons that consult it"""
+    probes = []
+    for key, v in verdicts.items():
+        if not v["reachable"]:
+            continue
+        a, b = v["keys"]
+        for ty in ("f32", "f64"):
+            for rel in REL:
+                probes.append((key, [rel, key_expr(a, ty, "a"), key_expr(b, ty, "b")]))
+                if key[0] == "ca":
+                    probes.append((key, [rel, key_expr(b, ty, "b"), key_expr(a, ty, "a")]))
+    return probes
+
+
+DIRECTED = [
+    # (label, spec builder)  -- expressions behind the findings recorded in known_findings.json and their neighbours
+    ("upcast(downcast(x))", lambda: ["upcast", ["downcast", sym_spec("x", "f64")]]),
+    ("downcast(upcast(x))", lambda: ["downcast", ["upcast", sym_spec("x", "f32")]]),
+    ("z == 0 (complex)", lambda: ["eq", ["sym", "z", "complex64"], ["const", ["i", 0], ["sym", "z", "complex64"]]]),
+    ("abs(z) < 0 (complex)", lambda: ["lt", ["absolute", ["sym", "z", "complex64"]], ["const", ["i", 0], ["sym", "x", "float32"]]]),
+    ("upcast(x) < 0", lambda: ["lt", ["upcast", sym_spec("x", "f32")], ["const", ["i", 0], sym_spec("y", "f64")]]),
+    ("sign(x) >= abs(y)", lambda: ["ge", ["sign", sym_spec("x", "f32")], ["absolute", sym_spec("y", "f32")]]),
+    ("copysign(x,y) < 0", lambda: ["lt", ["copysign", sym_spec("x", "f32"), sym_spec("y", "f32")], ["const", ["i", 0], sym_spec("x", "f32")]]),
+    ("sqrt(-1.0) python float", lambda: ["sqrt", ["const", vfloat(-1.0, "py"), sym_spec("x", "py")]]),
+    ("sqrt(-4.0) float32", lambda: ["sqrt", ["const", vfloat(-4.0, "py"), sym_spec("x", "f32")]]),
+    ("pi == 3 python float", lambda: ["eq", ["const", ["n", "pi"], sym_spec("x", "py")], ["const", ["i", 3], sym_spec("x", "py")]]),
+    ("0.1(f32) + 0.2(f64)", lambda: ["add", ["const", vfloat(0.1, "py"), sym_spec("x", "f32")], ["const", vfloat(0.2, "py"), sym_spec("y", "f64")]]),
+    ("x*(0.1(f32) + 0.2(f64))", lambda: ["multiply", sym_spec("y", "f64"), ["add", ["const", vfloat(0.1, "py"), sym_spec("x", "f32")], ["const", vfloat(0.2, "py"), sym_spec("y", "f64")]]]),
+    ("largest(f32) == largest(f64)", lambda: ["eq", ["const", ["n", "largest"], sym_spec("x", "f32")], ["const", ["n", "largest"], sym_spec("y", "f64")]]),
+    ("-abs(a) < abs(b)", lambda: ["lt", ["negative", ["absolute", sym_spec("a", "f32")]], ["absolute", sym_spec("b", "f32")]]),
+    ("abs(a) <= -abs(b)", lambda: ["le", ["absolute", sym_spec("a", "f64")], ["negative", ["absolute", sym_spec("b", "f64")]]]),
+    ("select(-abs(a) == abs(b), a, b)", lambda: ["select", ["eq", ["negative", ["absolute", sym_spec("a", "f32")]], ["absolute", sym_spec("b", "f32")]], sym_spec("a", "f32"), sym_spec("b", "f32")]),
+]
+
+INFER_DIRECTED = [
+    ("_is_one(square(-1))", lambda: ["square", ["const", ["i", -1], sym_spec("x", "f32")]]),
+    ("_is_one(abs(-1.0))", lambda: ["absolute", ["const", vfloat(-1.0, "py"), sym_spec("x", "f64")]]),
+    ("_is_one(sqrt(square(-1)))", lambda: ["sqrt", ["square", ["const", ["i", -1], sym_spec("x", "f32")]]]),
+]
+
+
+def run(ctx):
+    t0 = time.time()
+    ctx.rule = ("type-directed random expression DAGs (depth <= 7, sharing, every kind the rewriter touches, constants of several Python/NumPy types, "
+                "named constants, casts) + a malformed stream + every shipped algorithm graph, rewritten by the REAL rewriter and by the Lean model; "
+                "non-trivial = the real rewriter changed the expression or raised; distinct by serialised DAG")
+    tabs, verdicts = generate(ctx)
+    tline = table_line(tabs)
+    lean_broken = ctx.lean_stage(["FAVerif.Props.C04"], THEOREMS, extra_targets=["FAVerif.Generated.C04Rows"])
+    row_items = table_stage(ctx, verdicts, lean_broken)
+    fallback_item = lean_broken[0] if lean_broken else None
+
+    # ---- directed probes on the real code (always): table rows + findings
+    probes = table_probes(verdicts)
+    pspecs = [p[1] for p in probes]
+    asg = [gen_assignments(ctx.rng, s, 8) + boundary_assignments(s) for s in pspecs]
+    pres = run_jobs("search", pspecs, extra=asg)
+    rows_failing = {}
+    for (key, spec), r in zip(probes, pres):
+        ctx.count("probe:table-row")
+        ctx.case(key=("probe", json.dumps(W.share(spec))), nontrivial=bool(r.get("changed")))
+        if r.get("fails"):
+            rows_failing.setdefault(key, (spec, r))
+    for key, (spec, r) in rows_failing.items():
+        v = verdicts[key]
+        report_search(ctx, spec, r, broken_item=row_items.get(key) or fallback_item, origin=f"table row {v['keys']}")
+    ctx.notes["table_rows_failing_on_real_code"] = sorted(f"{k[0]}:({k[1][1:]},{k[2][1:]})" for k in rows_failing)
+    dspecs = [mk() for _, mk in DIRECTED]
+    dres = run_jobs("search", dspecs, extra=[gen_assignments(ctx.rng, s, 10) + boundary_assignments(s) for s in dspecs])
+    for (label, _), spec, r in zip(DIRECTED, dspecs, dres):
+        ctx.count("probe:directed")
+        ctx.case(key=("directed", label), nontrivial=True)
+        report_search(ctx, spec, r, origin=f"directed probe `{label}`")
+    ispecs = [mk() for _, mk in INFER_DIRECTED]
+    ires = run_jobs("infersearch", ispecs, extra=[gen_assignments(ctx.rng, s, 2) for s in ispecs])
+    for (label, _), spec, r in zip(INFER_DIRECTED, ispecs, ires):
+        ctx.count("probe:infer")
+        for f in r.get("fails", [])[:1]:
+            ctx.violation(f["signature"], f"directed probe `{label}`: the real `_is_{f['prop']}` answers {f['answer']} but the value is {f['value']}",
+                          dict(spec=W.share(spec), infer=f))
+
+    # ---- correspondence
+    broken_out = []
+    corpus = load_corpus()
+    if corpus:
+        correspondence(ctx, tline, [c[1] for c in corpus], ["corpus"] * len(corpus), "corpus", broken_out)
+    n_total = ctx.scale(21000, 400000)
+    batch = 3000
+    w_fold = 1.0
+    done = 0
+    n_bool = n_const = 0
+    sampled = 0
+    while done < n_total:
+        g = Gen(ctx.rng, w_fold=w_fold)
+        gm = Gen(ctx.rng, malformed=True)
+        specs, kinds = [], []
+        for _ in range(min(batch, n_total - done)):
+            s, k = (gm if ctx.rng.random() < 0.07 else g).expression()
+            specs.append(s)
+            kinds.append(k)
+        status, res, _ = correspondence(ctx, tline, specs, kinds, "gen", broken_out)
+        for s, k, r in zip(specs, kinds, res):
+            ctx.count(f"stream:{k}")
+            ctx.count(f"depth:{min(depth_of(s), 8)}")
+            if k == "bool" and "ok" in r:
+                n_bool += 1
+                if r["ok"][0] == "const":
+                    n_const += 1
+            if sampled < 6 and r.get("changed") and "dag" in r and len(r["dag"]) < 300:
+                sampled += 1
+                ctx.sample(dict(stream=k, dag=r["dag"], rewritten=str(r.get("ok"))[:300]))
+        done += len(specs)
+        frac = n_const / max(1, n_bool)
+        if frac > 0.08:
+            w_fold = max(0.1, w_fold * 0.6)     # re-weight: fewer conditions with operands of known sign
+        if time.time() - t0 > ctx.scale(150, 1500):
+            ctx.notes["correspondence_cut_short_after"] = done
+            break
+    ctx.notes["constant_condition_fraction"] = round(n_const / max(1, n_bool), 4)
+    ctx.notes["w_fold_final"] = w_fold
+    ctx.obligation("generator: fraction of generated conditions that rewrite to a constant < 10%", n_const / max(1, n_bool) < 0.10, kind="generator")
+
+    # inference answers: model vs implementation
+    gq = Gen(ctx.rng)
+    qspecs = [gq.expression()[0] for _ in range(ctx.scale(3000, 30000))]
+    qres = [r for r in run_jobs("infer", qspecs) if "dag" in r]
+    qout = run_driver(ctx, tline, ["Q " + r["dag"] for r in qres])
+    qmis = 0
+    for r, o in zip(qres, qout):
+        m = dict(kv.split("=", 1) for kv in o.split(" ")) if "=" in o else {}
+        mm = dict(zero=m.get("zero"), one=m.get("one"), finite=m.get("finite"), nonnegative=m.get("nonneg"), nonpositive=m.get("nonpos"),
+                  positive=m.get("pos"), negative=m.get("neg"), bool=m.get("bool"), complex=m.get("complex"), type=m.get("type"))
+        bad = [k for k in r["ans"] if r["ans"][k] != mm[k] and not str(mm[k]).startswith("E:Unsupported")]
+        ctx.traces_validated += 1
+        ctx.count("infer-corr:" + ("same" if not bad else "MISMATCH"))
+        if bad:
+            qmis += 1
+            if qmis <= 2:
+                broken_out.append((ctx.broken("correspondence:Infer", json.dumps(dict(dag=r["dag"], impl={k: r["ans"][k] for k in bad}, model={k: mm[k] for k in bad}))), None))
+
+    # every shipped algorithm graph
+    ship_mis = 0
+    sg = W.shipped_graphs()
+    slines, sreal, smeta = [], [], []
+    for name, sig, bodies, err, c in sg:
+        if bodies is None:
+            ctx.count(f"shipped:not-traceable:{err}")
+            continue
+        for b in bodies:
+            try:
+                dag = W.to_dag(b)
+            except W.Unserialisable:
+                ctx.count("shipped:unserialisable")
+                continue
+            rr = W.real_rewrite(b, timeout=60)
+            gt, bd = W.order_oracle(c)
+            work = "f32" if "64" in sig[0] and "complex64" in sig[0] or "float32" in sig[0] else "f64"
+            slines.append(r_line(dict(dag=dag, gt=gt, bad=bd), work, 256))
+            sreal.append(dict(dag=dag, ok=W.canon_real(rr[1])) if rr[0] == "ok" else dict(dag=dag, err=rr[1]))
+            smeta.append((name, sig))
+    souts = run_driver(ctx, tline, slines)
+    for (name, sig), r, o in zip(smeta, sreal, souts):
+        st, detail, strict = compare_one(r, o)
+        ctx.count(f"shipped:{st}")
+        ctx.traces_validated += 1
+        ctx.case(key=("shipped", name, str(sig)), nontrivial=True)
+        if st == "MISMATCH":
+            ship_mis += 1
+            if ship_mis <= 2:
+                broken_out.append((ctx.broken("correspondence:Rewriter(shipped graph)", json.dumps(dict(algorithm=name, signature=sig, detail=detail))[:3000]), None))
+    nmis = sum(1 for k, v in ctx.distribution.items() if k.endswith(":MISMATCH") for _ in range(v))
+    ctx.notes["correspondence_mismatches"] = nmis
+    ctx.obligation("correspondence:Rewriter(model == real rewriter: identical trees / same exception, every generated, malformed, corpus and shipped expression)",
+                   nmis == 0 and not any(b[0]["name"].startswith("model:") for b in broken_out), kind="correspondence")
+
+    # ---- search: the property's clauses on the real rewriter, independent of the model
+    gs = Gen(ctx.rng)
+    sspecs = []
+    n_search = ctx.scale(4500, 60000)
+    while len(sspecs) < n_search:
+        s, k = gs.expression()
+        sspecs.append(s)
+    sasg = [gen_assignments(ctx.rng, s, 6) for s in sspecs]
+    sres = run_jobs("search", sspecs, extra=sasg)
+    agg = {}
+    nviol = 0
+    for s, r in zip(sspecs, sres):
+        ctx.case(key=("search", json.dumps(W.share(s))), nontrivial=bool(r.get("changed")))
+        for k, v in r.get("stats", {}).items():
+            agg[k] = agg.get(k, 0) + v
+        if r.get("fails"):
+            nviol += report_search(ctx, s, r, broken_item=fallback_item)
+    for k, v in agg.items():
+        ctx.count("search:" + k, v)
+    # inference answers of the real code against exact evaluation
+    fspecs = [gs.expression()[0] for _ in range(ctx.scale(1500, 20000))]
+    fres = run_jobs("infersearch", fspecs, extra=[gen_assignments(ctx.rng, s, 4) for s in fspecs])
+    for s, r in zip(fspecs, fres):
+        ctx.count("infer-search:checked", r.get("checked", 0))
+        for f in r.get("fails", [])[:1]:
+            ctx.violation(f["signature"], f"the real `_is_{f['prop']}` answers {f['answer']} for a {f['kind']} expression whose value is {f['value']}",
+                          dict(spec=W.share(s), infer=f))
+
+    # ---- broken correspondence items: look for a failing input of the PROPERTY on the real code
+    for item, spec in broken_out:
+        if spec is None or item["has_failing_input"]:
+            continue
+        r = W.search_case_full(spec, gen_assignments(ctx.rng, spec, 12) + boundary_assignments(spec))
+        report_search(ctx, spec, r, broken_item=item, origin="expression of a correspondence mismatch")
+    ctx.notes["wall_s_c04"] = round(time.time() - t0, 1)
+
+
+def boundary_assignments(spec):
+    """the all-zero, all-one, all-equal assignments (the 0-vs-0 case of the relational tables)"""
+    syms = symbols_of(spec)
+    out = []
+    for val in (0, 1, -1):
+        q, f = {}, {}
+        for name, tag in syms.items():
+            if tag is None:
+                continue
+            if tag == "b":
+                q[name], f[name] = bool(val > 0), bool(val > 0)
+            elif tag == "i":
+                q[name], f[name] = [val, 1], ["i", val]
+            else:
+                q[name], f[name] = [val, 1], [tag, W.float_bits(float(val), tag)]
+        out.append(dict(q=q, f=f))
+    return out
+
+
+def replay(ctx, obj):
+    rp = obj.get("replay") or {}
+    if "spec" not in rp:
+        print("replay names an obligation without failing input:", obj.get("obligation"))
+        print(obj.get("detail", "")[:2000])
+        return 1
+    spec = W.unshare(rp["spec"])
+    if "infer" in rp:
+        r = W.infer_search_case(spec, gen_assignments(ctx.rng, spec, 6))
+        print(json.dumps(r, indent=1)[:4000])
+        return 1 if r.get("fails") else 0
+    asg = gen_assignments(ctx.rng, spec, 16) + boundary_assignments(spec)
+    for f in rp.get("fails", []):
+        if f.get("clause") == "exact" and isinstance(f.get("env"), dict):
+            asg.append(dict(q=f["env"], f={}))
+    r = W.search_case_full(spec, asg)
+    c = W.new_context()
+    with W.quiet():
+        e = W.build(c, spec)
+    print("expression:", e)
+    res = W.real_rewrite(e)
+    print("rewritten :", res[1] if res[0] == "ok" else res)
+    print(json.dumps(dict(fails=r.get("fails", [])[:4], signatures=r.get("signatures"), minimal=r.get("minimal")), indent=1, default=str)[:6000])
+    return 1 if r.get("fails") else 0
+
+
+LEVEL_TEXT = ("Proof (soundness) + search (termination, no-raise). Theorems (Lean kernel): for every expression over the modelled kinds, every operand "
+              "order, every fuel and every assignment on which the expression is defined, the rewriting pass (every rule method, the per-node fixpoint, the "
+              "bottom-up traversal) returns an expression with the same value — in exact arithmetic over any ordered field and, in one working precision, "
+              "under any monotone odd idempotent rounding away from NaN/overflow/underflow (floats equal up to the sign of zero); sign/zero/finite inference "
+              "is sound; every consulted row of the relational tables, regenerated from the module on each run, is the strongest sound row (two rows excluded: "
+              "known finding, with a negation witness). The model is a hand port tied by a correspondence check (identical trees / exception kinds on >= 2e4 "
+              "generated, malformed and all shipped graphs per quick run).")
+LEVEL_NOTE = ("Theorems speak about runs of the strict model (exact constant folds/casts, one dtype for named constants); strict == plain result is checked per "
+              "expression. Not theorems: termination, absence of exceptions, complex kinds, lists, mixed-precision floating point — these are searched on the real "
+              "rewriter with exact Fraction and NumPy interpreters. Trusted: Lean kernel; the hand model (validated each run); the semantics; Soft float == NumPy.")
+TECHNIQUE = "Lean 4 proof over a hand model + regenerated tables (per-row decide) + line-protocol correspondence + exact/NumPy differential search on the real rewriter"
